@@ -37,6 +37,15 @@ def okLoopPrefix (errorLevel : Int) : List Int → Bool
   | [] => true
   | l :: ls => if l ≥ errorLevel then false else okLoopPrefix errorLevel ls
 
+/-- `Parse` appends to the caller's report and looks only at what it appended:
+    `prior := len(r.Diagnostics)` on entry, the loop runs over `r.Diagnostics[prior:]`. -/
+def okShared (errorLevel : Int) (prior new : List Int) : Bool :=
+  okLoop errorLevel ((prior ++ new).drop prior.length)
+
+/-- the variant that looks at the whole report (seeded change c28d) -/
+def okWholeReport (errorLevel : Int) (prior new : List Int) : Bool :=
+  okLoop errorLevel (prior ++ new)
+
 /-- what the documentation of Parse promises ("whether parsing succeeded without errors"):
     no diagnostic is an error or an internal compiler error -/
 def noErrors (L : Levels) (ls : List Int) : Bool := ls.all (fun l => l != L.err && l != L.ice)
